@@ -79,6 +79,7 @@ type realStack struct {
 	mu      sync.Mutex
 	cbs     []sout // beacons delivered to the registered callback
 	group   *key.Group
+	wrap    func(chain.Store) chain.Store // racing-writers scenario: a gate between the wrappers and the base store
 }
 
 func newRealStack(cfg stackCfg, root string) (*realStack, error) {
@@ -122,7 +123,11 @@ func (rs *realStack) build() error {
 	if err := rs.base.Put(ctx, chain.GenesisBeacon(cp(genesisSeed))); err != nil {
 		return err
 	}
-	ds := beacon.VerifStackNewDiscrepancyStore(rs.base, l, rs.group, clock.NewFakeClock())
+	var under chain.Store = rs.base
+	if rs.wrap != nil {
+		under = rs.wrap(rs.base)
+	}
+	ds := beacon.VerifStackNewDiscrepancyStore(under, l, rs.group, clock.NewFakeClock())
 	ss, err := beacon.NewSchemeStore(ctx, ds, rs.cfg.scheme())
 	if err != nil {
 		return err
@@ -689,6 +694,11 @@ func RunStack(outDir string, seed int64, tier string) error {
 			}
 		}
 	}
+	for _, cfg := range stackCfgs {
+		if err := racingWriters(rep, cfg, root); err != nil {
+			return err
+		}
+	}
 	cwg.Wait()
 	for _, err := range cerrs {
 		if err != nil {
@@ -702,7 +712,7 @@ func RunStack(outDir string, seed int64, tier string) error {
 		}
 	}
 	rep.Extra["resync_raw_put"] = resyncObservation(root)
-	rep.Rule = "one evaluation = one event sequence on the real stack NewCallbackStore(newAppendStore(NewSchemeStore(newDiscrepancyStore(base)))) over untrimmed bolt, trimmed bolt, memdb 10 and 12, chained and unchained scheme/context; events chosen by looking at the real head: next round (right / wrong / arbitrary previous signature), duplicates (same, other signature, other previous signature), gaps, old rounds, cancelled contexts, through Put or through chainStore.tryAppend with a fresh or stale view, and close/reopen restarts (the bolt file is reopened through the daemon's format probe; once per bolt configuration while another handle still holds the file lock for 1.5 s); after every event the result class, a full cursor scan and Last are recorded; distinct = distinct (configuration, event trace); non-trivial = the head moved at least once"
+	rep.Rule = "one evaluation = one event sequence on the real stack NewCallbackStore(newAppendStore(NewSchemeStore(newDiscrepancyStore(base)))) over untrimmed bolt, trimmed bolt, memdb 10 and 12, chained and unchained scheme/context; events chosen by looking at the real head: next round (right / wrong / arbitrary previous signature), duplicates (same, other signature, other previous signature), gaps, old rounds, cancelled contexts, through Put or through chainStore.tryAppend with a fresh or stale view, and close/reopen restarts (the bolt file is reopened through the daemon's format probe; once per bolt configuration while another handle still holds the file lock for 1.5 s); per configuration one racing-writers history (two Puts of different beacons for round head+1 overlapping while the first back-end write is in progress: monitor only, at most one accepted, one back-end write, one callback, stored = accepted); after every event the result class, a full cursor scan and Last are recorded; distinct = distinct (configuration, event trace); non-trivial = the head moved at least once"
 	if err := rep.Shard(outDir, "cases_stack", []string{"From DV Require Import Model.Backends Model.StoreStack Corr.StackCorr."}, "kcase", "mismatches", lines, descr, 12); err != nil {
 		return err
 	}
@@ -759,4 +769,138 @@ func resyncObservation(root string) map[string]string {
 		rs.close()
 	}
 	return res
+}
+
+// ---------- racing writers (the aggregator and a sync both storing round head+1) ----------
+
+// gatedStore sits between the wrapper stack and the base store: the first Put of the gated
+// round announces itself and waits for the release; every Put is counted per round.
+type gatedStore struct {
+	chain.Store
+	mu      sync.Mutex
+	round   uint64
+	gated   bool
+	puts    map[uint64]int
+	arrived chan struct{}
+	release chan struct{}
+}
+
+func (g *gatedStore) Put(ctx context.Context, b *common.Beacon) error {
+	g.mu.Lock()
+	g.puts[b.Round]++
+	hold := b.Round == g.round && !g.gated
+	if hold {
+		g.gated = true
+	}
+	g.mu.Unlock()
+	g.arrived <- struct{}{}
+	if hold {
+		<-g.release
+	}
+	return g.Store.Put(ctx, b)
+}
+
+// racingWriters: chain 1..2 through the stack, then two writers put DIFFERENT beacons for round 3
+// at once; the first one's back-end write is held until the second writer had every chance to
+// get past the round checks. The property's "written once, never replaced, a re-put is reported"
+// must hold for the pair: at most one Put is accepted, the back end is written once, the
+// callback fires once, and what is stored is what was accepted.
+func racingWriters(rep *emit.Report, cfg stackCfg, root string) error {
+	gs := &gatedStore{round: 3, puts: map[uint64]int{}, arrived: make(chan struct{}, 16), release: make(chan struct{})}
+	rs := &realStack{cfg: cfg, group: &key.Group{Period: 30 * time.Second, GenesisTime: 1700000000, ID: "default", Threshold: 1},
+		wrap: func(st chain.Store) chain.Store { gs.Store = st; return gs }}
+	if cfg.kind == "mem" {
+		rs.mem = memdb.NewStore(cfg.cap)
+	} else {
+		d, err := os.MkdirTemp(root, "db")
+		if err != nil {
+			return err
+		}
+		rs.dir = d
+	}
+	if err := rs.build(); err != nil {
+		return fmt.Errorf("racing writers: building the stack on %s: %w", cfg.name, err)
+	}
+	defer rs.close()
+	ctx := rs.cfg.ctx()
+	s := func(r, w byte) []byte { return []byte{0xD0 | r, 0x5A, w} }
+	prev := genesisSeed
+	for r := byte(1); r <= 2; r++ {
+		if err := rs.top.Put(ctx, &common.Beacon{Round: uint64(r), PreviousSig: cp(prev), Signature: s(r, 0)}); err != nil {
+			return fmt.Errorf("racing writers: round %d on %s: %w", r, cfg.name, err)
+		}
+		prev = s(r, 0)
+	}
+	for len(gs.arrived) > 0 {
+		<-gs.arrived
+	}
+	res := make([]chan error, 2)
+	for w := 0; w < 2; w++ {
+		res[w] = make(chan error, 1)
+	}
+	put := func(w int) {
+		res[w] <- rs.top.Put(ctx, &common.Beacon{Round: 3, PreviousSig: cp(prev), Signature: s(3, byte(w+1))})
+	}
+	go put(0)
+	select {
+	case <-gs.arrived:
+	case <-time.After(10 * time.Second):
+		rep.Fail("C02-harness-stuck", "racing writers: the first writer never reached the back end", map[string]interface{}{"config": cfg.name})
+		close(gs.release)
+		return nil
+	}
+	go put(1)
+	// unchanged code: the second writer waits for the append store's lock and cannot arrive
+	select {
+	case <-gs.arrived:
+	case <-time.After(250 * time.Millisecond):
+	}
+	close(gs.release)
+	var errs [2]error
+	for w := 0; w < 2; w++ {
+		select {
+		case errs[w] = <-res[w]:
+		case <-time.After(10 * time.Second):
+			rep.Fail("C02-harness-stuck", "racing writers: a Put never returned", map[string]interface{}{"config": cfg.name, "writer": w})
+			return nil
+		}
+	}
+	accepted := []int{}
+	for w, e := range errs {
+		if e == nil {
+			accepted = append(accepted, w)
+		}
+	}
+	gs.mu.Lock()
+	writes := gs.puts[3]
+	gs.mu.Unlock()
+	input := map[string]interface{}{"config": cfg.name, "history": "put 1; put 2; two writers put round 3 with signatures " + emit.Bytes(s(3, 1)) + " and " + emit.Bytes(s(3, 2)) + " while the first back-end write is in progress",
+		"results": []string{classify(errs[0]), classify(errs[1])}, "backend_writes_of_round_3": writes}
+	rep.Evaluations++
+	rep.Count(cfg.name + "/racing-writers")
+	rep.Count("racing/accepted=" + fmt.Sprint(len(accepted)))
+	if len(accepted) > 1 {
+		rep.Fail("C02-two-different-beacons-accepted-for-one-round", "two overlapping Puts of different beacons for round 3 were both accepted (no already-stored / duplicate error for the loser)", input)
+	}
+	if writes > 1 {
+		rep.Fail("C02-round-written-twice", fmt.Sprintf("round 3 was written %d times to the back end by two overlapping writers", writes), input)
+	}
+	if len(accepted) == 1 {
+		b, err := rs.top.Get(ctx, 3)
+		if err != nil || !bytes.Equal(b.Signature, s(3, byte(accepted[0]+1))) {
+			rep.Fail("C02-stored-beacon-is-not-the-accepted-one", "after two overlapping writers the stored round 3 is not the beacon whose Put was accepted", input)
+		}
+		k := rs.waitCallbacks(3)
+		time.Sleep(20 * time.Millisecond)
+		n3 := 0
+		for _, c := range rs.cbsSnapshot(k) {
+			if c.r == 3 {
+				n3++
+			}
+		}
+		if n3 != 1 {
+			rep.Fail("C02-callback-count-for-raced-round", fmt.Sprintf("round 3 was delivered %d times to the callback", n3), input)
+		}
+	}
+	return nil
 }
